@@ -87,10 +87,12 @@ def _reset(job, force=False):
         # Build a 'feature' set that is ultimately going to contain commits
         # from the current feature branch + those from potentially earlier
         # (pre-rebase) versions of the feature branch
-        feature = set(src.get_commit_diff(dst))
+        feature = set(src.get_commit_diff(dst, ignore_merges=False))
 
-        # Analyse commits from the integration branch
-        wcommits = reversed(list(branch.get_commit_diff(dst)))
+        # Analyse commits from the integration branch, merge commits
+        # included: a conflict resolution is a merge commit
+        wcommits = reversed(list(
+            branch.get_commit_diff(dst, ignore_merges=False)))
         for rev in wcommits:
             if rev in feature:
                 continue
